@@ -11,13 +11,14 @@ CONSTANT Menu    \* [kinds, dests, hookStates, envs, qmax, reqops, planops]
 
 VARIABLES st,    \* the machine record after the last call (persistent + what the call produced)
           lab,   \* label of the last / the chosen call
-          ph     \* "idle" | "chosen" : the call is picked in one step and executed (with every script) in the
+          ph,    \* "idle" | "chosen" : the call is picked in one step and executed (with every script) in the
                  \* next, so that TLC's per-state parallelism spreads over (state, call) pairs
+          stash  \* a buffer saved from some earlier state (only in models with Menu.serial)
 
-vars == <<st, lab, ph>>
+vars == <<st, lab, ph, stash>>
 
 \* what carries over to the next call
-View == <<st.act, st.res, st.q, st.plans, st.pex, st.succ, st.fail, ph, IF ph = "chosen" THEN lab ELSE <<>>>>
+View == <<st.act, st.res, st.q, st.plans, st.pex, st.succ, st.fail, ph, IF ph = "chosen" THEN lab ELSE <<>>, stash>>
 
 Envs == Menu.envs      \* records [sel, rank, util, rng]
 
@@ -40,22 +41,26 @@ Scripts(l) ==
         e \in Envs, hs \in {<<>>} \cup { <<h>> : h \in HookChoices(l) } }
 
 Labels(m) ==
-    IF ~On(m) THEN {<<"enter">>}
+    IF ~On(m) THEN {<<"enter">>} \cup (IF Menu.serial /\ stash # <<>> THEN {<<"load">> \o stash} ELSE {})
     ELSE {<<"update">>, <<"react">>, <<"query">>, <<"reset">>}
          \cup (IF Cfg.manual THEN {<<"exit">>} ELSE {})
          \cup { <<"imm", k, d, 0>> : k \in Menu.kinds, d \in Menu.dests }
          \cup (IF Len(m.q) < Menu.qmax THEN { <<"queue", k, d, 0>> : k \in Menu.kinds, d \in Menu.dests } ELSE {})
          \cup (IF Menu.planops THEN { <<"succeed", s>> : s \in Menu.hookStates } ELSE {})
+         \cup (IF Menu.serial THEN {<<"save">>} ELSE {})
+         \cup (IF Menu.serial /\ stash # <<>> THEN {<<"load">> \o stash} ELSE {})
 
 Init == /\ st = (IF Cfg.manual THEN BeginCall(Blank, EmptyScript) ELSE ApiEnter(Blank, EmptyScript))
         /\ lab = <<"new">>
         /\ ph = "idle"
+        /\ stash = <<>>
 
 Next == \/ /\ ph = "idle"
            /\ \E l \in Labels(st) : lab' = l
-           /\ ph' = "chosen" /\ UNCHANGED st
+           /\ ph' = "chosen" /\ UNCHANGED <<st, stash>>
         \/ /\ ph = "chosen"
            /\ \E sc \in Scripts(lab) : st' = Step(st, lab, sc)
+           /\ stash' = IF lab[1] = "save" THEN Encode(st) ELSE stash
            /\ ph' = "idle" /\ UNCHANGED lab
 
 Spec == Init /\ [][Next]_vars
@@ -151,6 +156,23 @@ P_Guards ==
           /\ ((\E i \in 1 .. Len(st'.ev) : Base(st'.ev[i][2]) \in LifeMethods)
                 => \E i \in 1 .. Len(st'.rounds) : st'.rounds[i][1] = "approved")
       ]_vars
+
+\* C08 : every reachable state round-trips through its own buffer, which fits the published size;
+\*       loading a buffer saved in any other state reproduces the saved prongs and re-saves bit-identically
+RoundTrip ==
+    On(st) => LET bits == UnpackBytes(Encode(st))
+                  back == LoadRequested(Blank, 1, bits, 2)
+              IN /\ Len(EncodeBits(st)) <= SERIAL_BITS
+                 /\ back[1].req = st.act /\ back[1].res = st.res
+                 /\ back[2] - 1 = Len(EncodeBits(st))
+P_Load ==
+    [][ (ph = "chosen" /\ lab'[1] = "load") =>
+          LET saved == LoadRequested(Blank, 1, UnpackBytes(Tail(lab')), 2)[1] IN
+          /\ st'.act = saved.req /\ st'.res = saved.res
+          /\ Encode(st') = Tail(lab')
+          /\ WellFormed(st')
+      ]_vars
+P_SaveUntouched == [][ (ph = "chosen" /\ lab'[1] = "save") => <<st'.act, st'.res, st'.q, st'.plans>> = <<st.act, st.res, st.q, st.plans>> ]_vars
 
 \* C05
 Consumers(m, phase) ==
